@@ -11,7 +11,7 @@ import (
 
 func init() {
 	register(&Check{ID: "C04", Level: "exploration",
-		Rule: "concurrent clients over all 8 listener kinds x 9 upstream transports, hot (repeated) and unique names, upstream replies delayed 0-50 ms (reordered), answers of 1-30 records of every pooled record type, cache off / tiny (eviction) / ample; " +
+		Rule: "concurrent clients over all 8 listener kinds x 9 upstream transports, hot (repeated) and unique names, upstream replies delayed 0-50 ms (reordered), answers of 1-30 records of every pooled record type, cache off / tiny (eviction) / ample; replies that arrive after the 6 s deadline; plus the in-process cache stress (large values overwritten while readers are delayed inside their copy) judged for foreign or torn values; " +
 			"one evaluation = one response checked against the keyed-answer oracle; distinct non-trivial = distinct (configuration, listener, upstream) cells with at least one keyed answer verified",
 		Run: runC04})
 }
